@@ -66,6 +66,47 @@ def run_op(op, s1, s2):
     cnt = W.Counter()
     c1 = W.instrument(W.build(s1), cnt)
     c2 = c1 if op.get("same_object") else W.instrument(W.build(s2), cnt)
+    return exec_op(op, c1, c2, cnt)
+
+
+def state_of(col, prefix=""):
+    """the numeric state of a collider (arrays and floats among its attributes; Margin: also the wrapped collider)"""
+    st = {}
+    for k, v in vars(col).items():
+        if k in ("support_function", "artist_"):
+            continue
+        if isinstance(v, np.ndarray):
+            st[prefix + k] = (v.shape, v.tobytes())
+        elif isinstance(v, (float, int, np.floating, np.integer)) and not isinstance(v, bool):
+            st[prefix + k] = float(v)
+        elif hasattr(v, "support_function") and hasattr(v, "__dict__") and k != "support_function":
+            st.update(state_of(v, prefix + k + "."))
+    return st
+
+
+def run_shared(case):
+    """all ops of the case on ONE pair of collider objects, in order (a query must not change what later queries see);
+    after every op the numeric state of both colliders is compared with the state before it"""
+    cnt = W.Counter()
+    c1 = W.instrument(W.build(case["c1"]), cnt)
+    c2 = c1 if case.get("same_object") else W.instrument(W.build(case["c2"]), cnt)
+    res = []
+    before = (state_of(c1), state_of(c2))
+    for op in case["ops"]:
+        n0 = cnt.n
+        r = exec_op(op, c1, c2, cnt)
+        r["support_calls"] = cnt.n - n0
+        after = (state_of(c1), state_of(c2))
+        changed = [f"collider{i + 1}.{k}" for i in (0, 1) for k in after[i] if before[i].get(k) != after[i][k]]
+        if changed:
+            r["state_changed"] = changed
+        before = after
+        res.append(r)
+    return res
+
+
+def exec_op(op, c1, c2, cnt):
+    name = op["fn"]
     out = dict(fn=name)
     kw = op.get("kw", {})
     t0 = time.time()
@@ -190,6 +231,9 @@ def main():
     for case in payload["cases"]:
         if "scene" in case:
             res.append([run_scene(case["scene"])])
+            continue
+        if case.get("shared"):
+            res.append(run_shared(case))
             continue
         r = []
         for op in case["ops"]:
